@@ -47,7 +47,7 @@ STRINGS = ["02-03-2016", "10/11/12", "12 janvier 2020", "12 enero 2020", "3 Mär
 TEXTS = ["It was launched on 4 October 1957. We remembered it 2 days ago, yesterday.",
          "Le 12 janvier 2020. Puis hier.", "Treffen am 3. März 2015 um 14:05 Uhr. Gestern.", "yesterday and 10/11/12",
          "Встреча 1 января 2020 г. в 10:00. Вчера.", "今天 2020年1月12日", "on 02-03-2016, in 3 weeks", "nothing to see",
-         "12 Ocak 2020 de geldi. dün."]
+         "12 Ocak 2020 de geldi. dün.", "le 12 février 2020, puis le 3 août 2021", "am 3. März 2015 und später am 5. Jänner 2016"]
 LANGS = [None, ["ja"], ["en"], ["fr"], ["es"], ["de"], ["tr"], ["tl"], ["ru"], ["zh"], ["fr", "en"], ["es", "fr"], ["en", "tl"], ["de", "tr", "fr"]]
 REGIONS = [None, None, None, "BE", "US", "CA", "ZZ"]
 SETTINGS = [None, None, None,
@@ -447,6 +447,40 @@ def triples(draw):
     region = draw(st.sampled_from(REGIONS))
     s1 = draw(st.sampled_from(PROBE_STRINGS))
     use_instance = draw(st.booleans())
+    if draw(st.integers(0, 9)) == 2:
+        # explicit-default settings on a long-lived parser: what the caller passed explicitly matters (an explicit DATE_ORDER
+        # switches the locale's own order off) even when the effective values equal the defaults; the interfering call passes
+        # another dict with equal effective values
+        S1 = copy.deepcopy(draw(st.sampled_from([{"DATE_ORDER": "MDY"}, {"DATE_ORDER": "MDY", "NORMALIZE": True}, {"PREFER_LOCALE_DATE_ORDER": True},
+                                                  {"SKIP_TOKENS": ["t"]}, {}])))
+        L1 = draw(st.sampled_from([["fr"], ["de"], ["ja"], ["ru"], ["es", "fr"], ["tl"], ["en"]]))
+        probe = draw(st.sampled_from(["02-03-2016", "01/02/2020", "10/11/12", "t 12 jan 2020"]))
+        h = [["new_parser", 0, L1, None, None, False, S1]]
+        if draw(st.booleans()):
+            h.append(["use_parser", 0, probe, None])
+        S2 = copy.deepcopy(draw(st.sampled_from(DEFAULT_EQUIV)))
+        if draw(st.booleans()):
+            h.append(["new_parser", 1, draw(st.sampled_from([L1, ["en"], ["fr"]])), None, None, False, S2])
+        else:
+            h.append(["parse", draw(st.sampled_from(STRINGS)), None, draw(st.sampled_from(LANGS[1:])), None, None, S2])
+        h.append(["use_parser", 0, probe, None])
+        return {"history": h}
+    if draw(st.integers(0, 9)) == 1:
+        # search_dates as the repeated call: language detection among several candidates keeps per-locale memos that are built
+        # by whichever call comes first, so the same search is made twice around an interfering call
+        langs = draw(st.sampled_from([None, ["fr", "en"], ["de", "fr"], ["en", "fr", "de"], ["fr"], ["tr", "en"]]))
+        Ss = draw(st.sampled_from([None, {"NORMALIZE": False}, {"NORMALIZE": False, "DATE_ORDER": "DMY"}, {"SKIP_TOKENS": ["de"]},
+                                   {"DATE_ORDER": "DMY"}, {"NORMALIZE": True}]))
+        text = draw(st.sampled_from(TEXTS))
+        add = draw(st.booleans())
+        h = [["search", text, langs, copy.deepcopy(Ss), add]]
+        k = draw(st.integers(0, 3))
+        if k == 0:
+            h.append(["search", draw(st.sampled_from(TEXTS)), draw(st.sampled_from([None, ["fr", "en"], ["de"]])), _variant(draw, Ss), False])
+        elif k == 1:
+            h.append(["parse", draw(st.sampled_from(STRINGS)), None, draw(st.sampled_from(LANGS[1:])), None, None, _variant(draw, Ss)])
+        h.append(["search", text, langs, copy.deepcopy(Ss), add])
+        return {"history": h}
     if draw(st.integers(0, 9)) == 0:
         # order-sensitive list settings: the fallback order of DEFAULT_LANGUAGES matters when the given languages fail and
         # the given order is requested; the interfering call uses the same list in another order
